@@ -192,6 +192,7 @@ package system
 
 //@ func (*addresser).AddressesByIndex
 //@   requires P1: a != nil && a.execute != nil && 0 <= index && index <= 4294967295
+//@   opt preserves heap(system.addresser), mem(net.Interface)
 //@   loop 1 invariant L0: ghost.execErr == nil
 //@   assigns everything
 //@   ensures E1 [C13,C14]: ghost.execErr != nil ==> result1 != nil && len(result0) == 0
@@ -199,6 +200,7 @@ package system
 
 //@ func (*addresser).routesByIndex
 //@   requires P1: a != nil && a.execute != nil && 0 <= index && index <= 4294967295
+//@   opt preserves heap(system.addresser), mem(net.Interface)
 //@   loop 1 invariant L0: ghost.execErr == nil
 //@   assigns everything
 //@   ensures E1 [C15]: ghost.execErr != nil ==> result1 != nil && len(result0) == 0
@@ -208,3 +210,17 @@ package system
 //@   assigns new heap(system.Dialer), brk
 //@   ensures E1 [C20]: result != nil && fresh(result) && result.iface == iface && result.state == state && result.mode == mode
 //@   opt trusted constructor: fills the struct and binds DialFunc to the method value d.dial
+
+// LoopbackRoutes: a failed interface listing or a failed route dump of any up
+// loopback interface is an error of the whole listing (C15).
+// net.Interface.Index: "positive integer that starts at one" (a kernel ifindex is a 32-bit int)
+//@ lib net.Interfaces() (ifis, err)
+//@   ensures I1: forall(k, 0, len(ifis), 0 < ifis[k].Index && ifis[k].Index <= 2147483647)
+//@ func (*addresser).LoopbackRoutes
+//@   ghost local failed Bool
+//@   requires P1: a != nil && a.execute != nil
+//@   opt preserves heap(system.addresser), mem(net.Interface)
+//@   assigns everything
+//@   at call routesByIndex(ra, ridx) (rrs, rerr): ghost.failed = ghost.failed || rerr != nil
+//@   loop 1 invariant L0 [C15]: !ghost.failed && a != nil && a.execute != nil && forall(k, 0, len(ranged(1)), 0 < ranged(1)[k].Index && ranged(1)[k].Index <= 2147483647)
+//@   ensures E1 [C15]: ghost.failed ==> result1 != nil && len(result0) == 0
